@@ -9,7 +9,7 @@ out=/var/tmp/verif-seeds.$$
 mkdir -p $out
 one() {
   sid=$1
-  ids=$(python3 -c "import json,sys; c=json.load(open('/verif/seeded/$sid/meta.json'))['check'].split(); print(' '.join(c[2:]))")
+  ids=$(python3 -c "import json,sys; c=json.load(open('/verif/seeded/$sid/meta.json'))['check'].split(); import re; print(' '.join(t for t in c[2:] if re.fullmatch(r'C[0-9][0-9]', t)))")
   wt=$out/wt-$sid
   git -C /repo worktree add -f --detach $wt HEAD -q || { echo "ERR  $sid worktree"; return; }
   if ! git -C $wt apply /verif/seeded/$sid/patch.diff 2>/dev/null; then echo "SKIP $sid (patch does not apply)"; git -C /repo worktree remove --force $wt; return; fi
